@@ -550,8 +550,13 @@ def r2(ctx: RuleCtx) -> None:
         for p, k in sorted(sm.demands):
             if p.startswith('<local>') and k == 'destdir':
                 name = p[len('<local>'):]
-                org = Flow(sm.fn, nested=False).origins(ast.Name(id=name, ctx=ast.Load()))
-                ok = 'attr:self.options.destdir' in org and 'call:os.environ.get' in org and not any(o.startswith('attr:') and o.endswith('.prefix') for o in org)
+                org = _deep_origins(m, sm.fn, ast.Name(id=name, ctx=ast.Load()))
+                wrong = sorted(o for o in org if (o.startswith('attr:') and o.endswith('.prefix')) or o in ('call:destdir_join', 'call:get_destdir_path'))
+                ok = 'attr:self.options.destdir' in org and 'call:os.environ.get' in org and not wrong
+                opaque = sorted(o for o in org if o.startswith('call:') and o not in ('call:os.environ.get', 'call:os.path.join', 'call:load_install_data', 'call:destdir_join',
+                                                                                   'call:get_destdir_path', 'call:path_has_root', 'call:os.path.abspath', 'call:os.path.normpath'))
+                if not ok and not wrong and opaque:
+                    raise Undecided(f'{q}: `{name}` (the DESTDIR handed to the installers) comes from {opaque}, which the rule cannot see into')
                 ctx.require(ok, f'{q}: `{name}` handed to the installers as DESTDIR originates from --destdir / $DESTDIR', mod, q, f'{name} as DESTDIR',
                             f'`{name}` is passed where the callees expect the DESTDIR value but it does not originate from options.destdir / os.environ (origins: {sorted(org)})')
             else:
@@ -597,6 +602,24 @@ def r2(ctx: RuleCtx) -> None:
         raise Undecided(f'destdir_join: result `{short(e)}` is not of the PurePath(d1, *PurePath(d2).parts[k:]) form')
     ctx.require(verdict == 'ok', 'destdir_join: DESTDIR first, anchor of the second path dropped (parts[1:])', smod, 'destdir_join', dj,
                 f'destdir_join builds `{short(e)}`: {verdict} (e.g. destdir_join("/tmp/d", "/usr/lib") must be /tmp/d/usr/lib)')
+
+
+def _deep_origins(m: Model, fn: U.FuncNode, e: ast.AST, depth: int = 2) -> T.Set[str]:
+    """Flow origins of `e`, where a value returned by an Installer helper (`self._helper(...)`) is replaced by the origins of
+    that helper's return expressions (two levels)."""
+    org = Flow(fn, nested=False).origins(e)
+    for _ in range(depth):
+        calls = [o for o in org if o.startswith('call:self.') and o[len('call:self.'):] in m.inst]
+        if not calls:
+            break
+        for o in calls:
+            org.discard(o)
+            h = m.inst[o[len('call:self.'):]]
+            fl = Flow(h, nested=False)
+            for st in walk_no_nested(h):
+                if isinstance(st, ast.Return) and st.value is not None:
+                    org |= {x for x in fl.origins(st.value) if not x.startswith('param:')}
+    return org
 
 
 def _assign_eff(st: ast.AST) -> T.Optional[str]:
@@ -800,12 +823,31 @@ def _install_data_param(fn: U.FuncNode) -> T.Optional[str]:
     return None
 
 
+def _reached_methods(m: Model, start: str = 'do_install', depth: int = 3) -> T.List[str]:
+    """Installer methods reached from do_install through self-calls (helpers it delegates to), in call order."""
+    wr = m.dry.wrappers()
+    seen: T.Dict[str, None] = {}
+    frontier = [start]
+    for _ in range(depth):
+        nxt: T.List[str] = []
+        for q in frontier:
+            fn = m.inst.get(q)
+            if fn is None:
+                continue
+            for c in calls_in(fn):
+                x = _self_method(c)
+                if x and x in m.inst and x not in wr and x not in seen and x != start:
+                    seen[x] = None
+                    nxt.append(x)
+        frontier = nxt
+    return list(seen)
+
+
 def _per_kind_loops(m: Model) -> T.List[Loop]:
-    """`for x in <InstallData param>.<collection>` loops of the methods do_install calls."""
-    do = m.mod.func('Installer.do_install')
-    called = [x for x in (_self_method(c) for c in calls_in(do)) if x]
+    """`for x in <InstallData param>.<collection>` loops of the methods do_install (or a helper it delegates to) calls."""
+    m.mod.func('Installer.do_install')
     out: T.List[Loop] = []
-    for name in dict.fromkeys(called):
+    for name in _reached_methods(m):
         fn = m.inst.get(name)
         if fn is None:
             continue
@@ -970,21 +1012,27 @@ def r3b(ctx: RuleCtx) -> None:
     m = _model(ctx)
     mod = m.mod
     eff = _effectful(m)
-    perm = _perm_wrappers(m)
-    # install_subdirs first: every other effect of do_install is dominated by it
-    do = mod.func('Installer.do_install')
-    cfg = CFG(do)
-    en = _effect_nodes(m, cfg, eff, flags=())
+    # install_subdirs first: along the chain of helpers from do_install to the method that calls it, every other effect of each
+    # level is dominated by the call that leads to install_subdirs
     first_name = 'install_subdirs'
-    first = [cfg.nodes[i] for i, e in en.items() if f'self.{first_name}' in e]
-    if len(first) != 1:
-        raise Undecided(f'do_install: {len(first)} statements call self.{first_name}')
-    others = [cfg.nodes[i] for i in en if i != first[0].id]
-    ctx.floor('effectful calls in do_install after install_subdirs', len(others), 7)
-    for n in others:
-        ctx.require(cfg.must_pass(cfg.entry, n, first), f'do_install: {", ".join(en[n.id])} only after install_subdirs', mod, 'Installer.do_install', n.expr() or do,
-                    f'{", ".join(en[n.id])} can run before install_subdirs, which must be first because it replaces the old subtree '
-                    f'(files installed earlier into that subtree would be deleted or copied over)', n.ast)
+    chain = _call_chain(m, 'do_install', first_name)
+    if chain is None:
+        raise Undecided(f'do_install does not reach self.{first_name} through at most three levels of Installer helpers')
+    total = 0
+    for holder, callee in zip(chain, chain[1:]):
+        fnh = m.inst[holder]
+        cfg = CFG(fnh)
+        en = _effect_nodes(m, cfg, eff, flags=())
+        first = [cfg.nodes[i] for i, e in en.items() if f'self.{callee}' in e]
+        if len(first) != 1:
+            raise Undecided(f'{holder}: {len(first)} statements call self.{callee}')
+        others = [cfg.nodes[i] for i in en if i != first[0].id]
+        total += len(others)
+        for n in others:
+            ctx.require(cfg.must_pass(cfg.entry, n, first), f'{holder}: {", ".join(en[n.id])} only after {callee}', mod, f'Installer.{holder}', n.expr() or fnh,
+                        f'{", ".join(en[n.id])} can run before install_subdirs, which must be first because it replaces the old subtree '
+                        f'(files installed earlier into that subtree would be deleted or copied over)', n.ast)
+    ctx.floor('effectful calls ordered after install_subdirs', total, 7)
 
     ex = Rec()
     _r3b_perm_last(ex, _mode_example())
@@ -992,6 +1040,23 @@ def r3b(ctx: RuleCtx) -> None:
         raise AnalysisError(f'C11.R3b built-in example not recognised: {ex.v} {ex.oks}')
     ctx.ok('built-in example: set_mode followed by a copy to the same path is flagged, copy-then-set_mode is clean', nontrivial=False)
     _r3b_perm_last(ctx, m)
+
+
+def _call_chain(m: Model, start: str, target: str, depth: int = 3) -> T.Optional[T.List[str]]:
+    """[start, helper..., target]: the unique chain of self-calls from `start` to the method `target`."""
+    paths = [[start]]
+    for _ in range(depth):
+        nxt = []
+        for pth in paths:
+            fn = m.inst.get(pth[-1])
+            if fn is None:
+                continue
+            callees = list(dict.fromkeys(x for x in (_self_method(c) for c in calls_in(fn)) if x and x in m.inst and x not in m.dry.wrappers()))
+            if target in callees:
+                return pth + [target]
+            nxt += [pth + [x] for x in callees if x not in pth]
+        paths = nxt
+    return None
 
 
 def _r3b_perm_last(ctx: Ctx, m: Model) -> None:
@@ -1241,25 +1306,42 @@ def _r4a_dirmaker(ctx: RuleCtx, m: Model) -> None:
     if len(whiles) != 1:
         raise Undecided('DirMaker.makedirs: expected one upward walk')
     tab = tables.extract(mk, body=whiles[0].body, effects=_assign_eff, inline=False, name='DirMaker.makedirs:walk')
-    walker = None
-    for r in tab.rows:
-        for e in r.effects:
-            if ':= os.path.dirname(' in e:
-                walker = e.split(' := ')[0]
-    if walker is None:
-        raise Undecided('DirMaker.makedirs: the walk does not step with os.path.dirname')
-    ex_atom = Atom('truth', (f'os.path.exists({walker})',))
-    seen_atom = Atom('in', (walker, f'self.{rec_attr}'))
+    # the walker is the variable the two tests of the walk are about: `<w> in self.<recorded>` and `os.path.exists(<w>)`
+    seen_c = [a for a in tab.atoms() if a.kind == 'in' and a.args[1] == f'self.{rec_attr}']
+    if len(seen_c) != 1:
+        raise Undecided(f'DirMaker.makedirs walk: tests {tab.atoms()} do not contain exactly one `<w> in self.{rec_attr}`')
+    ex_c = [Atom('truth', (f'os.path.exists({seen_c[0].args[0]})',))]
+    walker = seen_c[0].args[0]
+    if not walker.isidentifier():
+        raise Undecided(f'DirMaker.makedirs walk: walked value `{walker}` is not a local')
+    ex_atom, seen_atom = ex_c[0], seen_c[0]
     unknown = [a for a in tab.atoms() if a not in (ex_atom, seen_atom)]
     if unknown:
         raise Undecided(f'DirMaker.makedirs walk: unknown atoms {unknown}')
+    fl_mk = Flow(mk, nested=False)
+
+    def _steps_up(effects: T.Sequence[str]) -> bool:
+        """The row moves the walker to its parent: `w := os.path.dirname(w)`, or `w := p` where every binding of p is
+        os.path.dirname(w) and the row re-establishes it after the move."""
+        moves = [(i, e.split(' := ', 1)[1]) for i, e in enumerate(effects) if e.startswith(f'{walker} := ')]
+        if len(moves) != 1:
+            return False
+        i, v = moves[0]
+        if v == f'os.path.dirname({walker})':
+            return True
+        if v.isidentifier():
+            binds = [norm(b) for b in fl_mk.defs.get(v, [])]
+            if binds and all(b == f'os.path.dirname({walker})' for b in binds):
+                later = [e for e in effects[i + 1:] if e.startswith(f'{v} := ')]
+                return later == [f'{v} := os.path.dirname({walker})']
+        return False
     for w in tab.worlds([ex_atom, seen_atom]):
         rows = tab.fire(w)
         if len(rows) != 1:
             raise Undecided(f'DirMaker.makedirs walk: {len(rows)} rows in {w}')
         r = rows[0]
         recorded = f'call {local}.append({walker})' in r.effects
-        stepped = f'{walker} := os.path.dirname({walker})' in r.effects
+        stepped = _steps_up(r.effects)
         if w[seen_atom]:
             want = (False, False)   # already recorded by an earlier call: stop
             got = (recorded, r.outcome == ('fall',))
@@ -1469,14 +1551,20 @@ def r4b(ctx: RuleCtx) -> None:
     tab2 = tables.extract(du, body=loop.body, effects=_assign_eff, inline=False, name='do_uninstall:loop', handlers=False)
     isdir, islink = Atom('truth', (f'os.path.isdir({name})',)), Atom('truth', (f'os.path.islink({name})',))
     comment_atoms = [a for a in tab2.atoms() if a.kind == 'truth' and a.args[0].startswith(f'{line}.startswith(')]
-    other = [a for a in tab2.atoms() if a not in (isdir, islink) and a not in comment_atoms and not (a.kind == 'truth' and a.args[0] == name)]
+    # "the decoded name is empty" in any spelling: `not name`, `name == ''`, `len(name) == 0`
+    nonempty: T.Dict[Atom, bool] = {}      # atom -> its value when the name is non-empty
+    for a in tab2.atoms():
+        if a.kind == 'truth' and a.args[0] == name:
+            nonempty[a] = True
+        elif a.kind == 'cmp' and a.args[0] == 'eq' and ((a.args[1], a.args[2]) in ((name, "''"), (f'len({name})', '0'))):
+            nonempty[a] = False
+    other = [a for a in tab2.atoms() if a not in (isdir, islink) and a not in comment_atoms and a not in nonempty]
     if other or len(comment_atoms) != 1:
         raise Undecided(f'do_uninstall loop: atoms not understood: {other or comment_atoms}')
     cpre = ast.parse(comment_atoms[0].args[0], mode='eval').body.args[0]   # type: ignore[attr-defined]
     if not (isinstance(cpre, ast.Constant) and isinstance(cpre.value, str) and cpre.value):
         raise Undecided('do_uninstall: comment prefix is not a constant')
     cpre_s = cpre.value
-    empty_atom = Atom('truth', (name,))
     for wv in tab2.worlds([isdir, islink]):
         rows = tab2.fire(wv)
         if wv.get(comment_atoms[0]):
@@ -1484,8 +1572,8 @@ def r4b(ctx: RuleCtx) -> None:
             if not ok:
                 ctx.violation(um, 'do_uninstall', f'comment line {cpre_s!r}', 'a comment line of the log is not skipped', loop)
             continue
-        if empty_atom in wv and not wv[empty_atom]:
-            continue   # an empty record (tolerated by the repaired reader): nothing to remove
+        if any(wv.get(a) != val for a, val in nonempty.items()):
+            continue   # an empty record (tolerated by the reader): nothing to remove
         if len(rows) != 1:
             raise Undecided(f'do_uninstall loop: {len(rows)} rows in {wv}')
         calls = [e[len('call '):].split('(')[0] for e in rows[0].effects if e.startswith('call os.')]
@@ -1561,7 +1649,8 @@ def _r5_bits(ctx: Ctx, mod: Module) -> None:
     tab2 = tables.extract(sp, effects=_assign_eff, name='sanitize_permissions')
     pres = Atom('cmp', ('eq', 'ARG2', "'preserve'"))
     isint = Atom('isinstance', ('ARG2', ('int',)))
-    unknown = [a for a in tab2.atoms() if a not in (pres, isint)]
+    probe_atoms = [a for a in tab2.atoms() if a.kind == 'truth' and a.args[0].startswith('is_executable(')]
+    unknown = [a for a in tab2.atoms() if a not in (pres, isint) and a not in probe_atoms]
     if unknown or pres not in tab2.atoms():
         raise Undecided(f'sanitize_permissions: atoms {tab2.atoms()}')
     rows = tab2.fire({pres: True})
@@ -1570,30 +1659,59 @@ def _r5_bits(ctx: Ctx, mod: Module) -> None:
     ctx.require(ok, "sanitize_permissions: umask 'preserve' -> file untouched", mod, 'sanitize_permissions', sp,
                 "with install_umask 'preserve' sanitize_permissions still changes the mode")
     rows = [r for r in tab2.rows if r.conds.get(pres) is False]
-    if len(rows) != 1:
-        raise Undecided(f'sanitize_permissions: {len(rows)} rows for an integer umask')
-    r = rows[0]
-    chm = [e for e in r.effects if e.startswith('call set_chmod(')]
-    if len(chm) != 1:
-        raise Undecided(f'sanitize_permissions: chmod calls {chm}')
-    call = ast.parse(chm[0][len('call '):], mode='eval').body
-    assert isinstance(call, ast.Call)
-    fs = kwarg(call, 'follow_symlinks')
-    ctx.require(len(call.args) >= 2 and norm(call.args[0]) == 'ARG1' and fs is not None and norm(fs) == 'False',
-                'sanitize_permissions: chmod of the path itself, not following symlinks', mod, 'sanitize_permissions', sp,
-                f'sanitize_permissions calls `{short(call)}`: it must chmod the given path with follow_symlinks=False')
-    # value of the mode argument, symbolically: the row's assignments composed into one expression over the parameters,
-    # compared by operator / operand structure with  (0o777 if is_executable(path) else 0o666) & ~umask
-    expr = U.compose_assignments(r.effects, call.args[1])
-    shape = _perm_shape(expr)
-    where = r.path.events[-1].node if r.path.events else sp
-    if shape is None:
-        raise Undecided(f'sanitize_permissions: mode expression `{short(expr)}` is not of the form (A if is_executable(path) else B) & ~umask')
-    probe, x_bits, plain_bits, mask, complemented = shape
-    fsl = kwarg(probe, 'follow_symlinks') if len(probe.args) < 2 else probe.args[1]
-    ctx.require(bool(probe.args) and norm(probe.args[0]) == 'ARG1' and fsl is not None and norm(fsl) == 'False',
-                'sanitize_permissions: executability is probed on the path itself, not following symlinks', mod, 'sanitize_permissions', where,
-                f'the default bits are chosen by `{short(probe)}`; it must test the installed path itself (follow_symlinks=False)')
+    if not rows:
+        raise Undecided('sanitize_permissions: no row for an integer umask')
+    # the mode handed to chmod, symbolically: the row's assignments composed into one expression over the parameters, compared
+    # by operator / operand structure with  (0o777 if is_executable(path) else 0o666) & ~umask ; the choice may also be made by
+    # an if statement (then the rows are split on the probe atom and each carries  CONST & ~umask)
+    bits: T.Dict[bool, int] = {}
+    masks: T.Set[T.Tuple[str, bool]] = set()
+    probes: T.List[ast.Call] = []
+    where: ast.AST = sp
+    for r in rows:
+        chm = [e for e in r.effects if e.startswith('call set_chmod(')]
+        if len(chm) != 1:
+            raise Undecided(f'sanitize_permissions: chmod calls {chm}')
+        call = ast.parse(chm[0][len('call '):], mode='eval').body
+        assert isinstance(call, ast.Call)
+        fs = kwarg(call, 'follow_symlinks')
+        if not (len(call.args) >= 2 and norm(call.args[0]) == 'ARG1' and fs is not None and norm(fs) == 'False'):
+            ctx.violation(mod, 'sanitize_permissions', call, f'sanitize_permissions calls `{short(call)}`: it must chmod the given path with follow_symlinks=False', sp)
+            return
+        expr = U.compose_assignments(r.effects, call.args[1])
+        where = r.path.events[-1].node if r.path.events else sp
+        pa = [(a_, v_) for a_, v_ in r.conds.items() if a_ in probe_atoms]
+        if pa:
+            if len(pa) != 1:
+                raise Undecided('sanitize_permissions: several executability probes on one path')
+            flat = _flat_shape(expr)
+            if flat is None:
+                raise Undecided(f'sanitize_permissions: mode expression `{short(expr)}` is not of the form CONST & ~umask')
+            pc = ast.parse(pa[0][0].args[0], mode='eval').body
+            assert isinstance(pc, ast.Call)
+            probes.append(pc)
+            if pa[0][1] in bits and bits[pa[0][1]] != flat[0]:
+                raise Undecided('sanitize_permissions: two rows with different bits for the same probe answer')
+            bits[pa[0][1]] = flat[0]
+            masks.add((flat[1], flat[2]))
+        else:
+            shape = _perm_shape(expr)
+            if shape is None:
+                raise Undecided(f'sanitize_permissions: mode expression `{short(expr)}` is not of the form (A if is_executable(path) else B) & ~umask')
+            probes.append(shape[0])
+            bits[True], bits[False] = shape[1], shape[2]
+            masks.add((shape[3], shape[4]))
+    ctx.ok('sanitize_permissions: chmod of the path itself, not following symlinks')
+    if set(bits) != {True, False} or len(masks) != 1:
+        raise Undecided(f'sanitize_permissions: rows do not cover both probe answers with one mask ({bits}, {masks})')
+    mask, complemented = next(iter(masks))
+    x_bits, plain_bits = bits[True], bits[False]
+    pok = True
+    for probe in probes:
+        fsl = kwarg(probe, 'follow_symlinks') if len(probe.args) < 2 else probe.args[1]
+        pok = pok and bool(probe.args) and norm(probe.args[0]) == 'ARG1' and fsl is not None and norm(fsl) == 'False'
+    ctx.require(pok, 'sanitize_permissions: executability is probed on the path itself, not following symlinks', mod, 'sanitize_permissions', where,
+                f'the default bits are chosen by `{short(probes[0])}`; it must test the installed path itself (follow_symlinks=False)')
     ctx.require((x_bits, plain_bits) == (0o777, 0o666), 'sanitize_permissions: default bits 0o777 for executables else 0o666 (constants folded)', mod, 'sanitize_permissions', where,
                 f'default permission bits fold to {x_bits:#o} for an executable and {plain_bits:#o} otherwise; documented: 0o777 / 0o666, '
                 f'restricted only by the install umask')
@@ -1638,6 +1756,22 @@ def _perm_shape(e: ast.AST) -> T.Optional[T.Tuple[ast.Call, int, int, str, bool]
     return None
 
 
+def _flat_shape(e: ast.AST) -> T.Optional[T.Tuple[int, str, bool]]:
+    """(folded bits, mask operand text, mask complemented?) of `CONST & [~]M`."""
+    if not (isinstance(e, ast.BinOp) and isinstance(e.op, ast.BitAnd)):
+        return None
+    for c, msk in ((e.left, e.right), (e.right, e.left)):
+        v = U.const_int(c)
+        if v is None:
+            continue
+        comp = isinstance(msk, ast.UnaryOp) and isinstance(msk.op, ast.Invert)
+        mm = msk.operand if comp else msk   # type: ignore[union-attr]
+        if attr_chain(mm) is None:
+            return None
+        return v, norm(mm), comp
+    return None
+
+
 def _xbit_shape(e: ast.AST) -> T.Optional[T.Tuple[ast.Call, int]]:
     """(stat call, folded mask) of  bool(S.st_mode & M)  |  (S.st_mode & M) != 0  |  S.st_mode & M."""
     if isinstance(e, ast.Call) and norm(e.func) == 'bool' and len(e.args) == 1 and not e.keywords:
@@ -1671,12 +1805,21 @@ def r5(ctx: RuleCtx) -> None:
     win = Atom('truth', ('is_windows()',))
     sem: T.Dict[Atom, str] = {mode_none: 'mode_none', A('perms_s'): 'perms_none', A('owner'): 'owner_none', A('group'): 'group_none', win: 'windows'}
     all_atoms: T.Dict[Atom, T.List[str]] = {}
+    derived: T.Dict[Atom, ast.AST] = {}
     for a in tab.atoms():
         if a in sem:
             continue
         fields = _all_none_fields(a)
         if fields is None:
-            raise Undecided(f'set_mode: atom outside the reference vocabulary: {a!r}')
+            # a compound test bound to a local first (`have_owner = mode.owner is not None or ...`): its value is a function
+            # of the reference atoms; it must be decided by them in every world
+            if a.kind != 'truth':
+                raise Undecided(f'set_mode: atom outside the reference vocabulary: {a!r}')
+            try:
+                derived[a] = ast.parse(a.args[0], mode='eval').body
+            except SyntaxError:
+                raise Undecided(f'set_mode: atom outside the reference vocabulary: {a!r}')
+            continue
         all_atoms[a] = fields
     bad: T.Dict[str, str] = {}
     nw = 0
@@ -1687,6 +1830,13 @@ def r5(ctx: RuleCtx) -> None:
         consistent = True
         for a, fields in all_atoms.items():
             if not v['mode_none'] and w[a] != all(v[f'{f}_none'] for f in fields):
+                consistent = False
+        facts = {repr(a): w[a] for a in sem}
+        for a, e in derived.items():
+            val = U.tv(e, facts)
+            if val is None:
+                raise Undecided(f'set_mode: test `{a!r}` is not a combination of the reference atoms {sorted(facts)}')
+            if not v['mode_none'] and w[a] != val:
                 consistent = False
         if not consistent:
             continue
